@@ -32,7 +32,7 @@ def generate(streams, tier):
     big = tier == "thorough"
     if mode == "history":
         engine = weighted(r, [("VE", 1), ("BP", 1)])
-        world = W.gen_bn(streams, max_n=6 if big else 5, min_n=2, max_joint=2048, connected=(engine == "BP"), allow_card1=engine != "BP")
+        world = W.gen_bn(streams, max_n=7 if big else 6, min_n=2, max_joint=4096, connected=(engine == "BP"), allow_card1=engine != "BP")
         config = W.gen_bn_config(streams, world)
         ref = RefJoint.from_bn(world)
         rw = streams.s("workload")
@@ -72,7 +72,26 @@ def generate(streams, tier):
                             q["ev"] = trial
                             break
                 q["op"] = rw.choice(["query", "map"])
-                if not q["virt"] and rw.random() < 0.7:
+                if q["ev"] and rw.random() < 0.5:
+                    # same node set, roles swapped: one query variable becomes evidence and one evidence variable is queried
+                    nodeset = set(q["q"]) | {int(k_) for k_ in q["ev"]}
+                    # prefer an evidence variable whose parents lie outside the question's node set: its prior is what a
+                    # network pruned for the first question has already thrown away
+                    pref = [k_ for k_ in sorted(q["ev"]) if set(world["parents"][int(k_)]) - nodeset]
+                    ek = rw.choice(pref or sorted(q["ev"]))
+                    qv = rw.choice(q["q"])
+                    trial_ev = {k_: v_ for k_, v_ in q["ev"].items() if k_ != ek}
+                    for s_ in shuffled(rw, range(world["card"][qv])):
+                        t_ = dict(trial_ev)
+                        t_[str(qv)] = s_
+                        if ref.prob_evidence(int_evidence(t_), [(v, l) for v, l in q["virt"] if v != qv and str(v) not in t_]) > 1e-12:
+                            q["ev"] = t_
+                            q["q"] = [x for x in q["q"] if x != qv] + [int(ek)]
+                            q["virt"] = [[v, l] for v, l in q["virt"] if v != qv and str(v) not in t_]
+                            if isinstance(q.get("order"), list):
+                                q["order"] = "MinFill"
+                            break
+                if not q["virt"] and rw.random() < 0.3:
                     v = rw.choice([x for x in range(world["n"]) if str(x) not in q["ev"]] or [0])
                     lik = [rw.choice([0.1, 0.25, 0.5, 0.9, 1.0]) for _ in range(world["card"][v])]
                     if str(v) not in q["ev"]:
@@ -99,9 +118,18 @@ def generate(streams, tier):
                 "mn_map", "elimination_order", "markov_blanket_etc"]
         ops = []
         ref = RefJoint.from_bn(world)
+        core_calls = ["ve_query", "ve_map", "bp_query", "bp_map", "simulate", "causal_query", "predict"]
         for _ in range(rw.randint(3, 8)):
-            name = rw.choice(menu)
-            q = c01.gen_query(rw, world, ref, allow_virtual=rw.random() < 0.3)
+            name = rw.choice(menu) if rw.random() < 0.7 else rw.choice(core_calls)
+            q = c01.gen_query(rw, world, ref, allow_virtual=False)
+            if rw.random() < 0.5:
+                # virtual evidence next to hard evidence: the engines build auxiliary evidence entries internally
+                cand = [v for v in range(world["n"]) if str(v) not in q["ev"]]
+                if cand:
+                    v = rw.choice(cand)
+                    lik = [rw.choice([0.1, 0.25, 0.5, 0.9, 1.0]) for _ in range(world["card"][v])]
+                    if ref.prob_evidence(int_evidence(q["ev"]), [(v, lik)]) > 1e-9:
+                        q["virt"] = [[v, lik]]
             ops.append({"op": name, "q": q["q"], "ev": q["ev"], "virt": q["virt"], "seed": rw.randrange(2**31), "opt": rw.randrange(1000)})
         return {"mode": mode, "world": world, "config": config, "rows": rows, "ops": ops}
     # twin
